@@ -50,9 +50,13 @@ WITNESSES = [
                {"jsonrpc": "2.0", "id": 5, "method": 17},
                {"jsonrpc": "2.0", "id": 8, "method": "initialized", "params": {}},
                {"jsonrpc": "2.0", "id": 9, "method": "textDocument/didClose", "params": {"textDocument": {"uri": "file:///x.gdn"}}},
+               {"jsonrpc": "2.0", "id": 10, "method": "$/garden/evalStatus", "params": {}},
+               {"jsonrpc": "2.0", "method": "$/cancelRequest", "params": {"id": 3}},
+               {"jsonrpc": "2.0", "id": 11, "method": "$/cancelRequest", "params": {"id": 3}},
+               {"jsonrpc": "2.0", "id": 12, "method": "workspace/symbol", "params": {"query": ""}},
                {"jsonrpc": "2.0", "id": 6, "method": "shutdown"},
                {"jsonrpc": "2.0", "id": 7, "method": "textDocument/definition", "params": {"textDocument": {"uri": "file:///nosuch.gdn"}, "position": {"line": 0, "character": 0}}}],
-     "expect": {"py": "(lambda ids: '' if ids == [1, 2, 3, 5, 8, 9, 6, 7] else 'responses carry ids %r, expected one each for the requests 1, 2, 3, 5, 8, 9, 6, 7 (8 and 9 are notification methods sent with an id) and none for notifications or for the response-shaped message 4' % (ids,))([o.get('id') for o in jsons(full_out) if 'id' in o])"},
+     "expect": {"py": "(lambda ids: '' if ids == [1, 2, 3, 5, 8, 9, 10, 11, 12, 6, 7] else 'responses carry ids %r, expected one each for the requests 1, 2, 3, 5, 8, 9, 10, 11, 12, 6, 7 (8 and 9 are notification methods sent with an id; 10 and 11 are `$/` methods sent with an id) and none for notifications or for the response-shaped message 4' % (ids,))([o.get('id') for o in jsons(full_out) if 'id' in o])"},
      "note": "one response per request in order, none for notifications"},
 ]
 _SWEEP = common.lsp_sweep_witnesses(r"lspmsg\.", ["C28"])
